@@ -134,12 +134,89 @@ def exact_sqrt(q):
     return None
 
 
+def _only(kw, ignorable, fname):
+    """keywords of a numpy call that a summary does not model end the run (never silently dropped); `ignorable` ones do not
+    change what the analysis tracks (memory order, dtype of exact values, sort algorithm, ..)"""
+    extra = sorted(k for k, v in kw.items() if k not in ignorable and not (k in ('out', 'where', 'initial') and v is None)
+                   and not (k == 'keepdims' and v is False))
+    if extra:
+        raise AnalysisError('%s with the keyword(s) %s is not modelled' % (fname, ', '.join(extra)))
+
+
 class ContextDummy(object):
     def __enter__(self):
         return self
 
     def __exit__(self, *a):
         return False
+
+
+FP_KINDS = frozenset(('divide', 'over', 'under', 'invalid'))
+
+
+class FpContext(object):
+    """np.errstate(..) / warnings.catch_warnings(): the floating-point warning kinds that are silenced while the block runs
+    are kept on a stack of the Models object (`fp_silenced`), so a rule can ask under which state an operation ran."""
+
+    def __init__(self, models, errstate=None):
+        self.models, self.errstate = models, errstate
+
+    def __enter__(self):
+        st = self.models.fp_silenced
+        top = set(st[-1])
+        for k, v in (self.errstate or {}).items():
+            kinds = FP_KINDS if k == 'all' else {k}
+            if k != 'all' and k not in FP_KINDS:
+                raise AnalysisError('np.errstate(%s=..)' % k)
+            top = (top | kinds) if v == 'ignore' else (top - kinds)
+        st.append(frozenset(top))
+        return self
+
+    def __exit__(self, *a):
+        self.models.fp_silenced.pop()
+        return False
+
+
+def _memo_key(v, typed):
+    """hash key of an abstract argument as functools.lru_cache forms it (== of the values; the type too when typed)"""
+    if isinstance(v, bool) or v is None or isinstance(v, str):
+        return (type(v).__name__, v)
+    if isinstance(v, (int, Fr)):
+        # 2 == 2.0 == Fraction(2): one key unless typed
+        return (('int' if isinstance(v, int) else 'float') if typed else 'num', Fr(v))
+    if isinstance(v, tuple):
+        return ('tuple',) + tuple(_memo_key(x, typed) for x in v)
+    if isinstance(v, Poly):
+        c = ndarr.concrete_real(v)
+        if c is not None:
+            return ('float' if typed else 'num', Fr(c))
+        return ('sym', repr(v))        # a symbolic scalar: equal exactly to itself
+    if isinstance(v, Arr) or isinstance(v, (list, dict, set)):
+        raise InterpRaise("unhashable type: '%s'" % ('numpy.ndarray' if isinstance(v, Arr) else type(v).__name__), 'TypeError')
+    raise AnalysisError('memoised call with an argument of kind %s' % type(v).__name__)
+
+
+class MemoFn(object):
+    """functools.lru_cache / cache around an analysed function: same key -> the very same result object"""
+
+    def __init__(self, fn, typed):
+        self.fn, self.typed, self.store = fn, typed, {}
+
+    def __call__(self, *args, **kwargs):
+        key = (tuple(_memo_key(a, self.typed) for a in args),
+               tuple((k, _memo_key(v, self.typed)) for k, v in sorted(kwargs.items())))
+        if key not in self.store:
+            self.store[key] = self.fn(*args, **kwargs)      # an exception is not stored
+        return self.store[key]
+
+    def cache_clear(self):
+        self.store.clear()
+
+
+def _lru_cache(maxsize=128, typed=False):
+    if callable(maxsize) and not isinstance(maxsize, (int, bool)):
+        return MemoFn(maxsize, False)          # @lru_cache without parentheses
+    return lambda fn: MemoFn(fn, bool(typed))
 
 
 class NeedsOrdering(AnalysisError):
@@ -153,6 +230,7 @@ class Models(object):
         self.hooks = hooks or {}
         self.interp = None
         self.warnings_log = []
+        self.fp_silenced = [frozenset()]       # stack of silenced floating-point warning kinds (see FpContext)
         self.np = self._build_np()
 
     def bind(self, interp):
@@ -169,8 +247,8 @@ class Models(object):
         if modname == 'numpy':
             return getattr(self.np, name)
         if modname == 'warnings':
-            w = Namespace('warnings', warn=self.warn, catch_warnings=lambda **k: ContextDummy(),
-                          simplefilter=lambda *a, **k: None, filterwarnings=lambda *a, **k: None)
+            w = Namespace('warnings', warn=self.warn, catch_warnings=lambda **k: FpContext(self),
+                          simplefilter=self._simplefilter, filterwarnings=self._simplefilter)
             return w if name is None else getattr(w, name)
         if modname == '__future__':
             return None
@@ -184,7 +262,8 @@ class Models(object):
                                                                               'accumulate', 'zip_longest')})
             return ns if name is None else getattr(ns, name)
         if modname == 'functools':
-            ns = Namespace('functools', partial=functools.partial)
+            ns = Namespace('functools', partial=functools.partial, wraps=lambda wrapped, **k: (lambda fn: fn),
+                           lru_cache=_lru_cache, cache=lambda fn: MemoFn(fn, True), reduce=functools.reduce)
             return ns if name is None else getattr(ns, name)
         if modname == 'scipy.special' or (modname == 'scipy' and name == 'special'):
             ns = Namespace('special', factorial=self.factorial)
@@ -207,6 +286,11 @@ class Models(object):
             if r is not NotImplemented:
                 return r
         raise AnalysisError('no model for external %s.%s (imported in %s)' % (modname, name, module.name))
+
+    def _simplefilter(self, action='default', *a, **k):
+        # the filter applies to the innermost catch_warnings block (or for good when there is none)
+        st = self.fp_silenced
+        st[-1] = FP_KINDS if action == 'ignore' else frozenset()
 
     def warn(self, msg, *a, **k):
         self.warnings_log.append(str(msg))
@@ -237,7 +321,7 @@ class Models(object):
         np.finfo = lambda t=None: Namespace('finfo', eps=Poly.sym('EPS'), tiny=Poly.sym('TINY'),
                                             smallest_normal=Poly.sym('TINY'), max=Poly.sym('HUGE'),
                                             min=-Poly.sym('HUGE'))
-        np.errstate = lambda **k: ContextDummy()
+        np.errstate = lambda **k: FpContext(self, k)
         np.ndarray = _NdarrayType()
         for name in ('abs', 'absolute', 'sqrt', 'exp', 'log', 'log2', 'log10', 'log1p', 'expm1', 'exp2',
                      'sin', 'cos', 'tan', 'sinh', 'cosh', 'tanh', 'arctan', 'arcsin', 'arccos', 'arcsinh',
@@ -475,6 +559,7 @@ class Models(object):
 
     # ------------------------------------------------------------------ creation / conversion
     def np_asarray(self, x, dtype=None, **kw):
+        _only(kw, ('order', 'subok', 'like', 'copy'), 'np.asarray')
         from .absint import Obj
         if isinstance(x, Arr):
             return x
@@ -488,15 +573,21 @@ class Models(object):
     np_ascontiguousarray = np_asarray
 
     def np_array(self, x, dtype=None, copy=True, **kw):
+        _only(kw, ('order', 'subok', 'like', 'ndmin'), 'np.array')
         from .absint import Obj
+        ndmin = kw.get('ndmin', 0)
         if isinstance(x, Arr):
-            return x.copy()
-        if isinstance(x, Obj):
-            return Arr((), [x], kind='O')
-        if not isinstance(x, (list, tuple)) and hasattr(x, '__iter__') and not isinstance(x, (str, Poly, Rat)):
-            x = list(x)
-        a = asarr(x)
-        return a.copy() if a is x else a
+            a = x.copy()
+        elif isinstance(x, Obj):
+            a = Arr((), [x], kind='O')
+        else:
+            if not isinstance(x, (list, tuple)) and hasattr(x, '__iter__') and not isinstance(x, (str, Poly, Rat)):
+                x = list(x)
+            a = asarr(x)
+            a = a.copy() if a is x else a
+        if isinstance(ndmin, int) and a.ndim < ndmin:
+            a = a.reshape((1,) * (ndmin - a.ndim) + tuple(a.shape))
+        return a
 
     def np_copy(self, x):
         return asarr(x).copy()
@@ -571,6 +662,7 @@ class Models(object):
         return a[idx]
 
     def np_take(self, a, indices, axis=None, **kw):
+        _only(kw, ('mode',), 'np.take')
         a = self.np_asarray(a)
         if axis is not None:
             raise AnalysisError('np.take with an axis')
@@ -612,15 +704,19 @@ class Models(object):
         return Arr(shape, [value] * _prod(shape), kind=kind)
 
     def np_zeros(self, shape, dtype=None, **kw):
+        _only(kw, ('order', 'like'), 'np.zeros')
         return self._filled(shape, 0, _kind_of_dtype(dtype))
 
     def np_ones(self, shape, dtype=None, **kw):
+        _only(kw, ('order', 'like'), 'np.ones')
         return self._filled(shape, 1, _kind_of_dtype(dtype))
 
     def np_empty(self, shape, dtype=None, **kw):
+        _only(kw, ('order', 'like'), 'np.empty')
         return self._filled(shape, UNINIT, _kind_of_dtype(dtype))
 
     def np_full(self, shape, fill_value, dtype=None, **kw):
+        _only(kw, ('order', 'like'), 'np.full')
         if isinstance(fill_value, Arr):
             return broadcast_to(fill_value, _shape_arg(shape)).copy()
         if dtype is not None:
@@ -630,15 +726,19 @@ class Models(object):
         return self._filled(shape, fill_value, k if k in ('i', 'c') else 'f')
 
     def np_zeros_like(self, x, dtype=None, **kw):
+        _only(kw, ('order', 'subok'), 'np.zeros_like')
         return self._filled(shape_of(x), 0, _kind_of_dtype(dtype))
 
     def np_ones_like(self, x, dtype=None, **kw):
+        _only(kw, ('order', 'subok'), 'np.ones_like')
         return self._filled(shape_of(x), 1, _kind_of_dtype(dtype))
 
     def np_empty_like(self, x, dtype=None, **kw):
+        _only(kw, ('order', 'subok'), 'np.empty_like')
         return self._filled(shape_of(x), UNINIT)
 
     def np_full_like(self, x, fill_value, dtype=None, **kw):
+        _only(kw, ('order', 'subok'), 'np.full_like')
         kind = _kind_of_dtype(dtype) if dtype is not None else (x.kind if isinstance(x, Arr) and x.kind else 'f')
         if kind == 'i' and not isinstance(fill_value, Arr):
             c = ndarr.concrete_real(fill_value)
@@ -648,10 +748,12 @@ class Models(object):
         return self._filled(shape_of(x), fill_value, kind)
 
     def np_arange(self, *args, **kw):
+        _only(kw, ('dtype', 'like'), 'np.arange')
         vals = [_conc_int(a) for a in args]
         return Arr((len(range(*vals)),), list(range(*vals)), kind='i')
 
     def np_linspace(self, start, stop, num=50, endpoint=True, **kw):
+        _only(kw, ('dtype',), 'np.linspace')
         num = _conc_int(num)
         div = (num - 1) if endpoint else num
         if num == 1:
@@ -721,12 +823,14 @@ class Models(object):
         raise AnalysisError('np.dot for ndim > 2')
 
     def np_vstack(self, tup, **kw):
+        _only(kw, ('dtype', 'casting'), 'np.vstack')
         arrs = [self.np_atleast_2d(x) for x in tup]
         if not arrs:
             raise InterpValueError('need at least one array to concatenate')
         return self.np_concatenate(arrs, axis=0)
 
     def np_hstack(self, tup, **kw):
+        _only(kw, ('dtype', 'casting'), 'np.hstack')
         arrs = [self.np_atleast_1d(x) for x in tup]
         if arrs and arrs[0].ndim == 1:
             return self.np_concatenate(arrs, axis=0)
@@ -861,9 +965,11 @@ class Models(object):
         return Arr(rest, out)
 
     def np_sum(self, a, axis=None, **kw):
+        _only(kw, ('dtype',), 'np.sum')
         return self._reduce(a, axis, _sum_items, 'sum', empty=0)
 
     def np_prod(self, a, axis=None, **kw):
+        _only(kw, ('dtype',), 'np.prod')
         def prod(items):
             acc = items[0]
             for v in items[1:]:
@@ -872,6 +978,7 @@ class Models(object):
         return self._reduce(a, axis, prod, 'prod', empty=1)
 
     def np_mean(self, a, axis=None, **kw):
+        _only(kw, ('dtype',), 'np.mean')
         return self._reduce(a, axis, lambda it: s_div(_sum_items(it), len(it)), 'mean')
 
     def np_cumsum(self, a, axis=None):
@@ -898,6 +1005,7 @@ class Models(object):
         return Arr((len(out),), out)
 
     def np_any(self, a, axis=None, **kw):
+        _only(kw, (), 'np.any')
         def f(items):
             pend = []
             for v in items:
@@ -911,6 +1019,7 @@ class Models(object):
         return self._reduce(a, axis, f, 'any', empty=False)
 
     def np_all(self, a, axis=None, **kw):
+        _only(kw, (), 'np.all')
         def f(items):
             pend = []
             for v in items:
@@ -950,14 +1059,17 @@ class Models(object):
             return best
 
         def f(a, axis=None, **kw):
+            _only(kw, (), 'np.' + name)
             return self._reduce(a, axis, red, name)
         return f
 
     def np_max(self, a, axis=None, **kw):
+        _only(kw, (), 'np.max')
         return self._extreme('max', 'maximum')(a, axis)
     np_amax = np_max
 
     def np_ptp(self, a, axis=None, **kw):
+        _only(kw, (), 'np.ptp')
         return self._bin(s_sub, self.np_max(a, axis), self.np_min(a, axis))
 
     def np_vdot(self, a, b):
@@ -1007,6 +1119,7 @@ class Models(object):
         return None
 
     def np_min(self, a, axis=None, **kw):
+        _only(kw, (), 'np.min')
         return self._extreme('min', 'minimum')(a, axis)
     np_amin = np_min
     np_nanmin = np_min
@@ -1023,6 +1136,7 @@ class Models(object):
         return Arr((len(out),), out, kind='i')
 
     def np_ravel_multi_index(self, multi_index, dims, **kw):
+        _only(kw, (), 'np.ravel_multi_index')
         dims = tuple(_conc_int(d) for d in dims)
         idx = [self.np_asarray(m) for m in multi_index]
         if len(idx) != len(dims):
@@ -1128,6 +1242,7 @@ class Models(object):
         return [broadcast_to(a, shape) for a in arrs]
 
     def np_clip(self, a, a_min=None, a_max=None, **kw):
+        _only(kw, (), 'np.clip')
         a_min = kw.get('min', a_min)
         a_max = kw.get('max', a_max)
 
@@ -1239,6 +1354,7 @@ class Models(object):
 
     # data dependent kernels: only through hooks
     def np_percentile(self, a, q, axis=None, **kw):
+        _only(kw, ('method', 'interpolation'), 'np.percentile')
         raise AnalysisError('np.percentile needs a rule specific model')
     np_nanpercentile = np_percentile
     np_median = np_percentile
@@ -1285,11 +1401,13 @@ class Models(object):
         return [(1, b) for b in below]
 
     def np_argsort(self, a, axis=-1, **kw):
+        _only(kw, ('kind', 'stable'), 'np.argsort')
         a, keys = self._ranks(a)
         order = sorted(range(len(keys)), key=lambda i: keys[i])
         return Arr((len(order),), order, kind='i')
 
     def np_sort(self, a, axis=-1, **kw):
+        _only(kw, ('kind', 'stable'), 'np.sort')
         a, keys = self._ranks(a)
         order = sorted(range(len(keys)), key=lambda i: keys[i])
         items = a.items()
